@@ -28,11 +28,33 @@ def run_one(item):
         if p.returncode != 0:
             return name, {'error': 'patch does not apply: ' + p.stdout[-200:]}
         env = dict(os.environ, NV_REPO=os.path.join(tmp, 'repo'), NV_CACHE=os.path.join(tmp, 'cache'),
-                   NV_EVIDENCE=os.path.join(tmp, 'evidence'))
+                   NV_EVIDENCE=os.path.join(tmp, 'evidence'),
+                   NV_UNIT_CACHE=os.environ.get('NV_UNIT_CACHE') or os.path.join(tempfile.gettempdir(), 'nv-unit-cache'))
         res = {}
-        for pid in PROPS:
-            r = subprocess.run([sys.executable, os.path.join(VERIF, 'nv', 'check.py'), pid], env=env,
+        # all twenty checks in one process (facts loaded once); MATRIX_SEPARATE=1 runs the registered one-process-per-property form
+        outputs = {}
+        if os.environ.get('MATRIX_SEPARATE'):
+            for pid in PROPS:
+                r = subprocess.run([sys.executable, os.path.join(VERIF, 'nv', 'check.py'), pid], env=env,
+                                   stdout=subprocess.PIPE, stderr=subprocess.STDOUT, text=True)
+                outputs[pid] = (r.returncode, r.stdout)
+        else:
+            r = subprocess.run([sys.executable, os.path.join(VERIF, 'tools', 'run_all_inproc.py')] + PROPS, env=env,
                                stdout=subprocess.PIPE, stderr=subprocess.STDOUT, text=True)
+            cur = None
+            for l in r.stdout.splitlines():
+                if l.startswith('### '):
+                    cur = l.split()[1]
+                    outputs[cur] = (int(l.split('rc=')[1]), '')
+                elif cur:
+                    outputs[cur] = (outputs[cur][0], outputs[cur][1] + l + '\n')
+            for pid in PROPS:
+                outputs.setdefault(pid, (2, 'ANALYSIS-BROKEN property=%s: runner died: %s' % (pid, r.stdout[-300:])))
+        for pid in PROPS:
+            class R_:
+                pass
+            r = R_()
+            r.returncode, r.stdout = outputs[pid]
             if r.returncode == 0:
                 continue
             hits = []
